@@ -282,8 +282,9 @@ class FlowIRExperimentConfiguration:
 
         system_vars = system_vars or {}
         config_patches = config_patches or {}
-        # VV: remove duplicates but keep the order: the files are layered in the order they are given
-        variable_files = list(dict.fromkeys(variable_files or []))
+        # VV: remove duplicates but keep the order: the files are layered in the order they are given. A file that
+        # is given more than once is layered at its last position (the last file wins)
+        variable_files = list(dict.fromkeys(reversed(variable_files or [])))[::-1]
 
         out_errors = []
         self.file_format = file_format
@@ -484,8 +485,9 @@ class FlowIRExperimentConfiguration:
 
         systemvars = systemvars or {}
         config_patches = config_patches or {}
-        # VV: remove duplicates but keep the order: the files are layered in the order they are given
-        variable_files = list(dict.fromkeys(variable_files or []))
+        # VV: remove duplicates but keep the order: the files are layered in the order they are given. A file that
+        # is given more than once is layered at its last position (the last file wins)
+        variable_files = list(dict.fromkeys(reversed(variable_files or [])))[::-1]
 
         out_errors = []
 
